@@ -338,6 +338,7 @@ func cmdCheck(args []string) int {
 	var samples []map[string]interface{}
 	var failed []*Obligation
 	knownHit := map[string]bool{}
+	knownObls := 0
 	for _, o := range all {
 		ok := false
 		if o.Cover {
@@ -355,7 +356,16 @@ func cmdCheck(args []string) int {
 		failed = append(failed, o)
 	}
 	os.MkdirAll(filepath.Join(verifDir, "replays", prop), 0o755)
+	repOf := map[*Obligation]*FuncReport{}
+	for _, r := range reports {
+		for _, o := range r.Obls {
+			repOf[o] = r
+		}
+	}
 	for _, o := range failed {
+		if r := repOf[o]; r != nil && os.Getenv("GVC_NO_REPLAY") == "" {
+			tryReplay(ld, r, o)
+		}
 		isKnown := false
 		for _, k := range known {
 			if k.Property == prop && k.Status == "known" && k.Obligation == oblBaseName(o.Name) {
@@ -367,6 +377,7 @@ func cmdCheck(args []string) int {
 			}
 		}
 		if isKnown {
+			knownObls++
 			continue
 		}
 		violations++
@@ -376,6 +387,9 @@ func cmdCheck(args []string) int {
 			suffix = " no-failing-input-found"
 		}
 		fmt.Printf("FAILED-OBLIGATION %s status=%s solver=%s pos=%s :: %s\n", o.Name, o.Result.Status, o.Result.Solver, o.Pos, o.Comment)
+		if o.replayNote != "" {
+			fmt.Printf("  replay: %s\n", o.replayNote)
+		}
 		fmt.Printf("VIOLATION property=%s replay=%s%s\n", prop, path, suffix)
 	}
 	// evidence
@@ -384,7 +398,7 @@ func cmdCheck(args []string) int {
 			samples = append(samples, map[string]interface{}{"obligation": o.Name, "kind": o.Kind, "status": o.Result.Status, "solver": o.Result.Solver, "ms": o.Result.Ms, "clause": o.Comment, "pos": o.Pos})
 		}
 	}
-	writeEvidence(prop, *tier, seed, reports, all, discharged, violations, len(knownHit), samples, float64(time.Since(t0).Milliseconds())/1000, map[string]int64{"load_ms": loadMs, "vcgen_ms": genMs, "solve_ms": solveMs}, problems)
+	writeEvidence(prop, *tier, seed, reports, all, discharged, violations, knownObls, samples, float64(time.Since(t0).Milliseconds())/1000, map[string]int64{"load_ms": loadMs, "vcgen_ms": genMs, "solve_ms": solveMs}, problems)
 	fmt.Printf("gvc: property=%s tier=%s functions=%d obligations=%d discharged=%d failed=%d known=%d problems=%d wall=%.1fs\n",
 		prop, *tier, len(reports), len(all), discharged, violations, len(knownHit), problems, time.Since(t0).Seconds())
 	if violations > 0 {
@@ -456,7 +470,8 @@ func writeEvidence(prop, tier string, seed int, reports []*FuncReport, all []*Ob
 		"seed":        seed,
 		"level":       "proof",
 		"coverage": map[string]interface{}{
-			"obligations":              len(all),
+			"obligations":              len(all) - knownN, // obligations listed in known_findings.jsonl are reported separately
+			"known_finding_obligations": knownN,
 			"discharged":               discharged,
 			"checker_cmd":              fmt.Sprintf("bin/gvc check %s --tier %s", prop, tier),
 			"trusted_base":             tb,
@@ -466,7 +481,6 @@ func writeEvidence(prop, tier string, seed int, reports []*FuncReport, all []*Ob
 			"decided_by":               bySolver,
 			"solver_ms_total":          solverMs,
 			"timing_ms":                timing,
-			"known_findings_reported":  knownN,
 			"engine_problems":          problems,
 			"explanation":              "weakest-precondition style VCs generated from go/ssa of /repo's working tree, one SMT query per obligation, callers checked against callee contracts",
 		},
